@@ -143,14 +143,15 @@ def BuildOK (pt : PT) : Prop :=
   ∀ σ mm cm w? P, buildWaveform pt σ cm = .ok w? → denote pt σ mm cm = .ok P →
     match w? with
     | none => P = Pulse.empty
-    | some w => P.chans ≠ [] ∧ w.duration = P.dur ∧ (0 < w.duration → WfRel w P ∧ Collapsible w) ∧
+    | some w => P.chans ≠ [] ∧ w.duration = P.dur ∧ w.channels = P.chanNames ∧
+        (0 < w.duration → WfRel w P ∧ Collapsible w) ∧
         ∀ ms, atomicMeas pt σ mm = .ok ms → P.windows = ms
 
 theorem BuildOK.of_rel {w : Wf} {P : Pulse} {pt : PT} {σ : Scope} {mm : List (MName × Option MName)}
     (h : WfRel w P ∧ Collapsible w ∧ ∀ ms, atomicMeas pt σ mm = .ok ms → P.windows = ms) :
-    P.chans ≠ [] ∧ w.duration = P.dur ∧ (0 < w.duration → WfRel w P ∧ Collapsible w) ∧
+    P.chans ≠ [] ∧ w.duration = P.dur ∧ w.channels = P.chanNames ∧ (0 < w.duration → WfRel w P ∧ Collapsible w) ∧
         ∀ ms, atomicMeas pt σ mm = .ok ms → P.windows = ms :=
-  ⟨h.1.ne, h.1.dur, fun _ => ⟨h.1, h.2.1⟩, h.2.2⟩
+  ⟨h.1.ne, h.1.dur, h.1.chans, fun _ => ⟨h.1, h.2.1⟩, h.2.2⟩
 
 /-- from the waveform to the appended leaf -/
 theorem atomOK_of_buildOK {pt : PT} (hb : BuildOK pt) : AtomOK pt := by
@@ -160,7 +161,7 @@ theorem atomOK_of_buildOK {pt : PT} (hb : BuildOK pt) : AtomOK pt := by
     simp only at this
     subst this
     exact Rel.nil
-  · obtain ⟨_, hdur, hrelc, hwin⟩ := hb σ mm cm (some w) P hw h2
+  · obtain ⟨_, hdur, _, hrelc, hwin⟩ := hb σ mm cm (some w) P hw h2
     have hw'dur : w'.duration = w.duration := by
       rcases hw' with ⟨rfl, _⟩ | ⟨cv, _, hcm⟩
       · rfl
